@@ -4,6 +4,7 @@ import ImmuModel.Mvcc.Linearize
 /-
 c06 new <key universe csv>
 c06 write <entries> <pres>        -> applied <id> | rejected <ver>      pres: e:<k>,n:<k>,m:<k>:<tx> | _
+c06 getall-steps <t> <hi> <ks csv>  -> the answer of GetAll run through the STEP model: snapshot at ts t, index advanced to hi, one step per key, return
 c06 read <t> get <k> | getall <ks csv> | scan <seek> <end> <pfx> <iS> <iE> <desc> <off> <limit> | history <k> | count <pfx>
 -/
 namespace Driver.C06
@@ -54,6 +55,19 @@ def step (st : St) : List String → St × String
       if presHold st.log last pre then ({ st with log := st.log ++ [ws] }, s!"applied {last + 1}")
       else (st, s!"rejected {last}")
     | _, _ => (st, "bad-op")
+  | ["getall-steps", t, hi, ks] =>
+    match t.toNat?, hi.toNat?, parseCsv ks with
+    | some t, some hi, some ks =>
+      -- the database after tx t was committed and indexed, all later transactions already precommitted
+      let d0 : Db := { log := st.log, committed := t, idx := t, hub := t, clients := [{}] }
+      let sched : List DbStep :=
+        [.invoke 0 (.read (.getAll ks)), .rdone 0 0, .sync hi, .index hi] ++ List.replicate (ks.length + 1) (.rdone 0 0)
+      match (dbRun st.cfg d0 sched).hist.getLast? with
+      | some r => match r.out with
+        | .answer _ res => (st, fmtQ res)
+        | _ => (st, "no-answer")
+      | none => (st, "unfinished")
+    | _, _, _ => (st, "bad-op")
   | "read" :: t :: q =>
     match t.toNat?, query? q with
     | some t, some q => (st, fmtQ (evalQuery st.cfg st.log t q))
